@@ -93,6 +93,23 @@ func Gen(ms []specwalk.Member, r *rand.Rand, p float64, depth int) []*Node {
 		}
 		if m.IsGroup {
 			n := 1 + r.Intn(3)
+			if len(m.Enums) > 0 {
+				// a counter with an enumeration (e.g. NoSides) must take one of its values
+				n = 0
+				fmt.Sscan(m.Enums[r.Intn(len(m.Enums))], &n)
+				if n < 1 || n > 3 {
+					n = 1
+					ok := false
+					for _, e := range m.Enums {
+						if e == "1" {
+							ok = true
+						}
+					}
+					if !ok {
+						continue
+					}
+				}
+			}
 			g := &Node{Tag: m.Tag, Val: fmt.Sprint(n), M: m}
 			for k := 0; k < n; k++ {
 				g.Entries = append(g.Entries, Gen(m.Kids, r, p*0.6, depth+1))
